@@ -177,6 +177,7 @@ TABLE = {
     'curve_lsq': ([q, basis, qlist, lst(qlist)], 'match q_curve_lsq {0} {1} {2} {3} with Ok o => Ok (o_cps o) | Err e => Err e end', res(lst(qlist))),
     'g2_encode': ([obj], 'q_g2_encode [{0}]', lst(qlist)),
     'disc_square_net': ([q, q], 'q_disc_square_net {0} {1}', lst(qlist)),
+    'const_par_curve': ([q, obj, q, nat], 'q_const_par_curve {0} {1} {2} {3}', res(obj)),
     'number_model': ([lst(natlist)], 'let r := x_number_model {0} in (snd r, fst r)', pair(nat, lst(natlist))),
     'eval_grid': ([q, obj, lst(qlist)], 'q_obj_eval_grid {0} {1} {2}', res(lst(qlist))),
     'eval_pointwise': ([q, obj, lst(qlist)], 'q_obj_eval_pointwise {0} {1} {2}', res(lst(qlist))),
@@ -222,7 +223,7 @@ def render(line, out):
     return '(ceq (%s) (%s))' % (templ.format(*args), exp)
 
 
-HEAVY = {'stl_write_surface', 'eval_grid', 'eval_pointwise', 'obj_append', 'obj_raise_order', 'obj_lower_order', 'solve', 'curve_interpolate', 'curve_lsq', 'obj_split', 'obj_make_periodic',
+HEAVY = {'const_par_curve', 'stl_write_surface', 'eval_grid', 'eval_pointwise', 'obj_append', 'obj_raise_order', 'obj_lower_order', 'solve', 'curve_interpolate', 'curve_lsq', 'obj_split', 'obj_make_periodic',
          'obj_lower_periodic', 'basis_integrate', 'obj_center'}
 
 
